@@ -121,6 +121,9 @@ CHECKS["C15"] = {
             {"run": "TestVfC15Gc", "quick": 1600, "thorough": 80000, "shards_quick": 8, "shards_thorough": 16},
             {"run": "TestVfC15GcKeepsLive", "quick": 0, "thorough": 2, "shards_thorough": 2},
         ]},
+        {"engine": "P", "pkg": "app/router", "tests": [
+            {"run": "TestVfC15Global", "quick": 96, "thorough": 4000, "shards_quick": 16, "shards_thorough": 16, "timeout_thorough": 3000},
+        ]},
         {"engine": "E", "proxy": ["plain"], "tests": [
             {"run": "TestVfC15Listeners", "quick": 96, "thorough": 12860, "shards_quick": 8, "shards_thorough": 16, "timeout_thorough": 3400},
         ]},
@@ -128,6 +131,7 @@ CHECKS["C15"] = {
     "assumptions": [
         "mask fields are omitted (0) or within 1..32 / 1..128; limit >= 1 as the configuration's integer type implies",
         "time is the parameter of AllowN (virtual); decisions within 1e-6 tokens of the threshold may go either way",
+        "TestVfC15Global runs in real time (the router's limiter reads the clock itself): decisions within 1 token + 10 ms of refill of a threshold are left undecided",
     ],
 }
 
@@ -299,6 +303,7 @@ CHECKS["C13"] = {
     "parts": [
         {"engine": "E", "proxy": ["plain"], "tests": [
             {"run": "TestVfC13Framing", "quick": 480, "thorough": 85710, "shards_quick": 8, "shards_thorough": 16, "timeout_thorough": 3400},
+            {"run": "TestVfC13CounterAfterRefusals", "quick": 24, "thorough": 800, "shards_quick": 8, "shards_thorough": 16, "timeout_thorough": 3000},
             {"run": "TestVfC13SlowSegments", "quick": 16, "thorough": 320, "shards_quick": 8, "shards_thorough": 16, "timeout_quick": 300, "timeout_thorough": 3400, "shrinktime": "60s"},
         ]},
     ],
